@@ -34,6 +34,8 @@ Definition E_VERSION : N := 4.     (* no common protocol version *)
 Definition E_NO_GROUP : N := 5.    (* TLS 1.3: no common group *)
 Definition E_CERT : N := 6.        (* certificate verification failed on a full handshake *)
 Definition E_NO_SUITE : N := 7.
+Definition E_BINDER : N := 8.      (* handshake_server_tls13.go checkForResumption: "tls: invalid PSK binder", decrypt_error *)
+Definition E_FINISHED : N := 9.    (* TLS 1.2 resumption with a wrong master secret: the server's Finished cannot be read *)
 Definition P_TICKET_ASSERT : N := 1. (* u_session_controller.go:190 uAssert in setSessionTicketToUConn; unreachable since fix C19-ticket-assert *)
 Definition P_PSK_NOT_LAST : N := 2.  (* u_session_controller.go:285 *)
 Definition P_MULTI_TICKET : N := 3.  (* u_session_controller.go:275 *)
@@ -64,7 +66,9 @@ Record session := mkSession {
   s_notafter : N;      (* peerCertificates[0].NotAfter *)
   s_certnames : list N;(* names the leaf is valid for *)
   s_name : N;          (* ghost: the cache key (clientSessionCacheKey of the storing connection) it was stored under *)
-  s_ticket : ticket
+  s_ticket : ticket;
+  s_bad : bool         (* ghost: the cached secret is not the one sealed in the ticket (a corrupted cache entry;
+                          never true for a session the client stored itself) *)
 }.
 
 (* extension kinds of a ClientHelloSpec, in list order *)
@@ -245,8 +249,8 @@ Definition stored (c : conn) (v suite : N) (ems : bool) (resumed_from : option s
   let sv := c_srv c in
   let tk := mkTicket (sv_key sv) v suite ems tcreated (c_tlen c) in
   match resumed_from with
-  | Some s => mkSession v suite ems (c_now c) (c_now c + LIFETIME) (s_verified s) (s_notafter s) (s_certnames s) (c_name c) tk
-  | None => mkSession v suite ems (c_now c) (c_now c + LIFETIME) (negb (c_skipverify c)) (sv_notafter sv) (sv_certnames sv) (c_name c) tk
+  | Some s => mkSession v suite ems (c_now c) (c_now c + LIFETIME) (s_verified s) (s_notafter s) (s_certnames s) (c_name c) tk false
+  | None => mkSession v suite ems (c_now c) (c_now c + LIFETIME) (negb (c_skipverify c)) (sv_notafter sv) (sv_certnames sv) (c_name c) tk false
   end.
 
 (* failure of a handshake that had loaded a session: u_handshake_client.go:482-496 *)
@@ -284,6 +288,8 @@ Definition step (ca : cache) (c : conn) : cache * obs :=
             end in
           match accepted with
           | Some s =>
+              (* the binder is a MAC under the cached secret: a secret that is not the ticket's makes the server abort *)
+              if s_bad s then (fail ca' c off, ob hrr (SrvErr E_BINDER)) else
               (* resumed: no certificate; a new ticket when the client sent psk_key_exchange_modes *)
               let ca2 := if has_modes sp then put (c_name c) (stored c V13 (c_suite c) false (Some s) (c_now c)) ca' else ca' in
               (ca2, ob hrr (Done true))
@@ -314,6 +320,8 @@ Definition step (ca : cache) (c : conn) : cache * obs :=
         | Some (Some s) =>
             (* doResumeHandshake always sends a new ticket wrapping the same secret *)
             let t := s_ticket s in
+            (* the server resumes from its own copy; the client derives other keys and fails on the server's Finished *)
+            if s_bad s then (fail ca' c off, ob false (CliErr E_FINISHED)) else
             (put (c_name c) (stored c v (t_suite t) (t_ems t) (Some s) (t_created t)) ca', ob false (Done true))
         | Some None =>
             if negb (mem (c_suite c) (sp_suites sp)) || negb (mem (c_suite c) (sv_suites sv)) then (fail ca' c off, ob false (SrvErr E_NO_SUITE)) else
@@ -324,6 +332,11 @@ Definition step (ca : cache) (c : conn) : cache * obs :=
         end
     end
   end.
+
+(* test equipment of the correspondence runs (not an operation of the library): the cached secret under key k is corrupted *)
+Definition set_bad (s : session) : session :=
+  mkSession (s_vers s) (s_suite s) (s_ems s) (s_created s) (s_useby s) (s_verified s) (s_notafter s) (s_certnames s) (s_name s) (s_ticket s) true.
+Definition mark_bad (k : N) (ca : cache) : cache := map (fun e => if fst e =? k then (fst e, set_bad (snd e)) else e) ca.
 
 Fixpoint run (ca : cache) (h : list conn) : list obs :=
   match h with
